@@ -1,4 +1,12 @@
 import Pfl
-#print axioms Pfl.CFG.cfgMem_iff
-#print axioms Pfl.Rx.thompson_lang
-#print axioms Pfl.ENFA.langDiff_none_iff
+#print axioms Pfl.ENFA.isEmpty_iff
+#print axioms Pfl.ENFA.isDeterministicE_iff
+#print axioms Pfl.ENFA.isDeterministicN_iff
+#print axioms Pfl.ENFA.reachableCycle_iff
+#print axioms Pfl.ENFA.isAcyclic_iff
+#print axioms Pfl.ENFA.mem_langUpTo_iff
+#print axioms Pfl.ENFA.langUpTo_nodup
+#print axioms Pfl.ENFA.mem_leadingToFinal_iff
+#print axioms Pfl.ENFA.acceptedWords_exact
+#print axioms Pfl.ENFA.acceptedWords_exact_unbounded
+#print axioms Pfl.ENFA.member_iff
